@@ -32,7 +32,7 @@ def run_family(gpkg, fam, seed, n):
     env["OPENBLAS_CORETYPE"] = "Prescott"
     # families whose code under test contains no external kernel (index arithmetic, sparse products) get no slack retry: one element past
     # the end is already a violation there
-    env["VERIF_EXACT_GUARD"] = "1" if fam in ("index", "gemvbox", "base-large") else "0"
+    env["VERIF_EXACT_GUARD"] = "1" if fam in ("index", "gemvbox", "base-large", "baseprod") else "0"
     outf = os.path.join(tlc.workdir("c19"), "%s_%d.json" % (fam, seed))
     if os.path.exists(outf):
         os.unlink(outf)
@@ -59,7 +59,7 @@ def run(tier, seed, replay=None):
     ck.clean_replays()
     quick = tier == "quick"
     scale = 1 if quick else 25
-    plan = {"blas": 40 * scale, "blas-large": 300 * scale, "index": 400 * scale, "gemvbox": 120 * scale, "lapack-shapes": 80 * scale, "lapack": 5 * scale, "lapack-large": 50 * scale, "base-large": 50 * scale,
+    plan = {"blas": 40 * scale, "blas-large": 300 * scale, "index": 400 * scale, "gemvbox": 120 * scale, "baseprod": 200 * scale, "lapack-shapes": 80 * scale, "lapack": 5 * scale, "lapack-large": 50 * scale, "base-large": 50 * scale,
             "dense": 12 * scale, "sparse": 6 * scale, "import": 10 * scale, "shapes": 60 * scale, "misc": 24 * scale}
     ck.rule = ("guard build; per worker x 16: " + ", ".join("%s %d" % kv for kv in plan.items()) + " generated calls / programs; BLAS calls judged by TLC "
                "(accept/reject = footprint, arguments near 2^31 clamped in the model); distinct = distinct (family, routine / operation, outcome) classes")
@@ -95,8 +95,12 @@ def run(tier, seed, replay=None):
                 continue
             if "crash" in r:
                 what = c.get("f") if isinstance(c, dict) and "f" in c else fam
-                desc = (c17.describe(c) if fam.startswith("blas") else json.dumps(c)[:400])
+                desc = (c17.describe(c) if fam.startswith("blas") else c17.describe_sp(c) if fam == "baseprod" else json.dumps(c)[:400])
                 ck.violation("memory|%s|%s|killed-the-interpreter" % (fam, what), "guard build: %s died (%s): %s" % (fam, r["crash"], desc), {"family": fam, "seed": sd, "case": c, "crash": r["crash"]})
+                continue
+            if fam == "baseprod" and r.get("ccs"):
+                ck.violation("memory|baseprod|%s|invalid-matrix-after-call" % c["f"], "guard build: %s left %s with an invalid compressed-column structure" % (c17.describe_sp(c), r["ccs"]),
+                             {"family": fam, "seed": sd, "case": c})
                 continue
             if "overread_le_64" in r:
                 stats["overread_le_64"] = stats.get("overread_le_64", 0) + 1
